@@ -27,6 +27,9 @@ def gen_workbook(rng):
         if k not in ('A1', 'A2'):
             del s0[k]
     s1 = {'A1': rng.randint(1, 9), 'B2': '=A1*3', 'C3': '=Main!A1+A1'}
+    if rng.random() < 0.6:
+        # "mirror" cells (a formula that is nothing but a reference) and readers of mirrors: an override of the mirror must reach its readers
+        s1.update({'A2': '=Main!A1', 'A3': '=A2+1', 'B1': '=A2', 'B3': '=B1*2+SUM(A2:A3)'})
     s2 = {'A1': 70 + rng.randint(1, 9), 'B2': "=A1+'0'!A1+Main!A1"}
     return [['Main', s0], ['Other', s1], ['0', s2]]
 
@@ -60,6 +63,8 @@ def gen_ops(rng, n, writes=True):
             if writes:
                 ops.append(['set', [[[0, 0, rng.randrange(2)], rng.choice([5, 7, 12])]]])
             ops.append(['get', [0, 1, rng.randrange(3)]])
+        elif rng.random() < 0.5 and writes:
+            ops += [['set', [[[1, 0, 1], rng.choice([50, 0, 'txt'])]]], ['get', [1, 0, 2]], ['get', [1, 1, 2]], ['set', [[[0, 0, 0], 9]]], ['get', [1, 1, 2]], ['get', [1, 1, 0]]]
         else:
             pair = [[0, 2, 3], [0, 1, 3]]
             rng.shuffle(pair)
@@ -88,7 +93,7 @@ def snapshot(ex):
     return cells, args, sizes
 
 
-def run_history(cls, ops):
+def run_history(cls, ops, reuse=True):
     """Runs the ops on a fresh real Executor.  Returns (observations, values) where observations is a list of
     (('exc', name) | ('done', [uids]), snapshot) and values a list of per-op lists of evaluated (uid, outcome)."""
     ex = I.executor(cls)
@@ -112,11 +117,31 @@ def run_history(cls, ops):
     def outc(v):
         return ('exc', v.name) if isinstance(v, Raised) else ('ok', v)
     obs, vals = [], []
+    held = {}          # the caller's own Cell objects, reused (with a new value) when the same spelling is written again
+
+    undo = []
+
+    def own_cell(a, v):
+        k = repr(a)
+        if reuse and k in held:
+            undo.append((held[k], held[k].value))
+            held[k].value = v
+            return held[k]
+        return mkcell(a, v)
     for op in ops:
         kind = op[0]
         try:
             if kind == 'set':
-                ex.set_cells([mkcell(a, C.jdec(v)) for a, v in op[1]])
+                del undo[:]
+                batch = [own_cell(a, C.jdec(v)) for a, v in op[1]]
+                try:
+                    ex.set_cells(batch)
+                except Exception:
+                    for c_, old in undo:          # the call failed: the caller's objects keep the values they had
+                        c_.value = old
+                    raise
+                for (a, _), c_ in zip(op[1], batch):
+                    held[repr(a)] = c_               # kept by the caller after a successful call
                 o, v = ('done', []), []
             elif kind == 'get':
                 c = ex.get_cell(mkcell(op[1]))
